@@ -1,5 +1,6 @@
-def observe(m):
-    """Public view of everything held: {cells element: value}, the assigned ones, the existing ItemSpaces."""
+def observe(m, *more):
+    """Public view of everything held: {cells element: value}, the assigned ones, the existing ItemSpaces
+    (of the model m and of the further models of a net that spans several models; their space names are distinct)."""
     held, inputs, items = {}, [], []
 
     def visit(sp, label):
@@ -15,8 +16,9 @@ def observe(m):
         for cname, child in sp.named_spaces.items():
             visit(child, label + "." + cname)
 
-    for sname, sp in m.spaces.items():
-        visit(sp, sname)
+    for mdl in (m,) + more:
+        for sname, sp in mdl.spaces.items():
+            visit(sp, sname)
     return {"held": held, "inputs": sorted(inputs), "items": sorted(items)}
 
 
@@ -65,7 +67,9 @@ def check(rec, obs, logdelta, value=None):
     for it in set(obs["items"]) ^ set(exp["items"]):
         bad.append(("itemspace-stale-kept" if it in obs["items"] else "itemspace-over-discarded", it))
     if mode == "recalc":
-        bad = [("not-recomputed" if k in ("over-discarded", "itemspace-over-discarded") else k, lab) for k, lab in bad]
+        if not rec.get("lenient"):      # (lenient: nothing has to be computed again at once, see the driver)
+            bad = [("not-recomputed" if k in ("over-discarded", "itemspace-over-discarded") else k, lab)
+                   for k, lab in bad]
         if not bad and sorted(logdelta) != sorted(explog):
             bad.append(("recalc-execution-log", "formulas executed %r, expected (in any order) %r"
                         % (sorted(logdelta), sorted(explog))))
